@@ -219,6 +219,7 @@ func c20Config(rng *rand.Rand) gen.Config {
 
 func init() {
 	core.Register("C20", func(c *core.Ctx) {
+		defer c20FoldLeg(c)
 		g := &c20GenState{spec: &specGenState{cfg: c20Config, perAst: 6, maxLen: 10}}
 		core.RunLeg(c, core.Leg[c20Case]{
 			Name: "F", Kind: "oracle(flips)",
